@@ -742,10 +742,11 @@ impl<'a> VariableParserExtension<'a> {
             .type_size_in_bytes(pcx.evcx, inner_type)
             .ok_or_else(|| UnknownSize(r#type.identity(inner_type)))?
             as usize;
+        // the real capacity: ring positions are taken modulo it, so it must not be capped
         let cap = if el_type_size == 0 {
             usize::MAX
         } else {
-            guard_cap(extract_capacity(pcx, &val)? as i64) as usize
+            extract_capacity(pcx, &val)?
         };
         let head = val.assume_field_as_scalar_number("head")? as usize;
         // an initialized deque never holds more elements than its capacity
@@ -763,20 +764,30 @@ impl<'a> VariableParserExtension<'a> {
 
         let data_ptr = val.assume_field_as_pointer("pointer")? as usize;
 
-        let data =
-            debugger::read_memory_by_pid(pcx.evcx.ecx.pid_on_focus(), data_ptr, cap * el_type_size)
-                .map(Bytes::from)?;
+        // fetch only the occupied regions of the ring (at most LEN_GUARD elements in total)
+        let read_region = |region: &std::ops::Range<usize>| {
+            debugger::read_memory_by_pid(
+                pcx.evcx.ecx.pid_on_focus(),
+                data_ptr.wrapping_add(region.start.wrapping_mul(el_type_size)),
+                region.len() * el_type_size,
+            )
+            .map(Bytes::from)
+        };
+        let regions = [
+            (slice_ranges.0.clone(), read_region(&slice_ranges.0)?),
+            (slice_ranges.1.clone(), read_region(&slice_ranges.1)?),
+        ];
 
-        let items = slice_ranges
-            .0
-            .chain(slice_ranges.1)
+        let items = regions
+            .iter()
+            .flat_map(|(region, data)| region.clone().map(move |real_idx| (region.start, real_idx, data)))
             .enumerate()
-            .filter_map(|(i, real_idx)| {
-                let offset = real_idx * el_type_size;
-                let el_raw_data = &data[offset..(real_idx + 1) * el_type_size];
+            .filter_map(|(i, (region_start, real_idx, data))| {
+                let offset = (real_idx - region_start) * el_type_size;
+                let el_raw_data = &data[offset..offset + el_type_size];
                 let el_data = ObjectBinaryRepr {
                     raw_data: data.slice_ref(el_raw_data),
-                    address: Some(data_ptr + offset),
+                    address: Some(data_ptr.wrapping_add(real_idx.wrapping_mul(el_type_size))),
                     size: el_type_size,
                 };
 
